@@ -14,10 +14,16 @@
    Concurrent line, two cache levels (stateless; model Conc2 with the generated `ccfg2`):
      {"op":"conc2","progs":[[item,…],…],"sched":[…as above, f = source index…]}
      items: ["call", ff|null, g] (front-end memo function number or null, source number) | ["acquire"] | ["exit"]
+
+   Record objects (stateless; model Rec with the generated `rcfg`):
+     {"op":"rec","line":[n,…],"hist":[["enter"] | ["exit",b] | ["call",route] | ["line",[n,…]], …]}
+   answer {"model":[out,…],"spec":[out,…]}, out = {"kind":"unit"} | {"kind":"ok","value":[[key,n],…]} | {"kind":"exc","exc":…}
 -/
 import PsutilModel.Base.Proto
 import PsutilModel.Model.C16Gen
 import PsutilModel.Spec.C16
+import PsutilModel.Model.C16RecGen
+import PsutilModel.Spec.C16Rec
 open Lean Psutil Psutil.Proto Psutil.C16
 
 structure DSt where
@@ -328,6 +334,37 @@ def handleConc2 (j : Json) : R Json := do
               ("spec", jObj [("interval", Json.bool r.allInterval), ("literal", Json.bool r.allLiteral),
                              ("spurious", Json.bool r.spurious)])])
 
+/- ---------------------------------------------------------------- record objects -/
+def parseRecOp (j : Json) : R Rec.Op :=
+  match j.getArr? with
+  | .ok #[k] => do
+    let k ← asStr k
+    if k == "enter" then pure .enter else .error s!"bad rec op {k}"
+  | .ok #[k, a] => do
+    let k ← asStr k
+    if k == "exit" then return .exit (← asBool a)
+    else if k == "line" then return .setLine (← asList asNat a)
+    else if k == "call" then
+      let m ← asStr a
+      match Rec.rcfg.routes.findIdx? (fun x => x.name == m) with
+      | some i => pure (.call i)
+      | none => .error s!"unknown route {m}"
+    else .error s!"bad rec op {k}"
+  | _ => .error "bad rec op"
+
+def jRecOut : Rec.Out → Json
+  | .unit => jObj [("kind", "unit")]
+  | .ret (.ok a) => jObj [("kind", "ok"), ("value", jList (fun kv => Json.arr #[Json.str kv.1, jNat kv.2]) a)]
+  | .ret (.error .keyError) => jExc "KeyError"
+  | .ret (.error .indexError) => jExc "IndexError"
+  | .badIndex => jObj [("kind", "badIndex")]
+
+def handleRec (j : Json) : R Json := do
+  let line ← listF asNat j "line"
+  let hist ← listF parseRecOp j "hist"
+  pure (jObj [("model", jList jRecOut (Rec.outs Rec.rcfg ⟨Rec.St.init, line⟩ hist)),
+              ("spec", jList jRecOut (Rec.RSpec.outsR Rec.rcfg ⟨Rec.RSpec.SSt.init, line⟩ hist))])
+
 def handle (d : DSt) (j : Json) : R (DSt × Json) := do
   let op ← strF j "op"
   if op == "reset" then
@@ -336,6 +373,8 @@ def handle (d : DSt) (j : Json) : R (DSt × Json) := do
     return (d, ← handleConc j)
   if op == "conc2" then
     return (d, ← handleConc2 j)
+  if op == "rec" then
+    return (d, ← handleRec j)
   let o ← parseOp j
   let (y', out) := step cfg d.y o
   let (ss', w', outS) := Spec.stepS cfg.meths cfg.validNames d.ss d.w o
